@@ -464,35 +464,10 @@ def run(ctx):
                'the expected closing delimiter is not tested before the generic delimiter scan',
                construct='impl_maybe_read_math_mode_delimiter: order')
     # no look-behind: whether a delimiter is recognised at pos depends on s[pos:] and the state only
-    from .. import affine as _aff
-    n_lb = 0
-    for fname_, f_ in sorted(tr.methods('LatexTokenReader').items()):
-        if not fname_.startswith('impl_'):
-            continue
-        pp_ = [a.arg for a in f_.args.args]
-        if 's' not in pp_ or 'pos' not in pp_:
-            continue
-        for x in iter_own(f_):
-            idx = None
-            if isinstance(x, ast.Subscript) and isinstance(x.value, ast.Name) and x.value.id == 's':
-                idx = x.slice.lower if isinstance(x.slice, ast.Slice) else x.slice
-            elif isinstance(x, ast.Call) and call_name(x) in ('startswith', 'find') and \
-                    unparse(call_recv(x) or ast.Constant(0)) == 's' and len(x.args) >= 2:
-                idx = x.args[1]
-            if idx is None:
-                continue
-            try:
-                d_ = _aff.diff(idx, ast.Name(id='pos', ctx=ast.Load()), {})
-            except _aff.NotAffine:
-                continue
-            if not d_[1] and d_[0] < 0:
-                n_lb += 1
-                ctx.refuted('R10d', tr, x, '%s reads the input BEFORE the position it tokenizes at (%s): whether a '
-                            'math delimiter is recognised then depends on the preceding characters -- after a '
-                            'line-break macro \\\\ the dollar of `\\\\$x$` is taken for an escaped \\$ and the formula is '
-                            'not recognised' % (fname_, short(x, 50)), construct='%s: look-behind %s' % (fname_, short(x, 40)))
-    ctx.holds('R10d', tr, None, 'no impl_* method of the token reader reads s before pos',
-              construct='look-behind scan', trivial=True)
+    look_behind_scan(ctx, 'R10d', tr,
+                     'whether a math delimiter is recognised then depends on the preceding characters -- after a '
+                     'line-break macro \\\\ the dollar of `\\\\$x$` is taken for an escaped \\$ and the formula is '
+                     'not recognised')
     psm = repo.mod(PS)
     fm = psm.methods('ParsingState').get('_finalize_state_latex_math_delim_info')
     t = unparse(fm) if fm is not None else ''
@@ -658,3 +633,35 @@ def run(ctx):
         'over all parse functions: the given parsing state is never re-bound, and state factories '
         'return states derived from their argument.  Run-time inheritance through user factories is '
         'not decided.')
+
+
+
+def look_behind_scan(ctx, rule, tr, consequence):
+    """no impl_* method of the token reader reads the input before the position it tokenizes at"""
+    from .. import affine as _aff
+    for fname_, f_ in sorted(tr.methods('LatexTokenReader').items()):
+        if not fname_.startswith('impl_'):
+            continue
+        pp_ = [a.arg for a in f_.args.args] + [t_.id for st_ in iter_own(f_) if isinstance(st_, ast.Assign)
+                                               for t_ in st_.targets if isinstance(t_, ast.Name)]
+        if 's' not in pp_ or 'pos' not in pp_:
+            continue
+        for x in iter_own(f_):
+            idx = None
+            if isinstance(x, ast.Subscript) and isinstance(x.value, ast.Name) and x.value.id == 's':
+                idx = x.slice.lower if isinstance(x.slice, ast.Slice) else x.slice
+            elif isinstance(x, ast.Call) and call_name(x) in ('startswith', 'find') and \
+                    unparse(call_recv(x) or ast.Constant(0)) == 's' and len(x.args) >= 2:
+                idx = x.args[1]
+            if idx is None:
+                continue
+            try:
+                d_ = _aff.diff(idx, ast.Name(id='pos', ctx=ast.Load()), {})
+            except _aff.NotAffine:
+                continue
+            if not d_[1] and d_[0] < 0:
+                ctx.refuted(rule, tr, x, '%s reads the input BEFORE the position it tokenizes at (%s): %s'
+                            % (fname_, short(x, 50), consequence),
+                            construct='%s: look-behind %s' % (fname_, short(x, 40)))
+    ctx.holds(rule, tr, None, 'no impl_* method of the token reader reads s before pos',
+              construct='look-behind scan', trivial=True)
